@@ -108,3 +108,31 @@ def select_candidates(work, V, n=8):
                 V.note('mechanism-drift: _select_candidates(%s): model %s, code %s' % (k, finals[k], o))
     return [{'module': 'SelectCandidates', 'cfg': 'MC_SelectCandidates.cfg', 'distinct_states': r['distinct'], 'violation': r['violation'], 'lists_replayed_into_code': len(cases), 'drift': drift},
             {'module': 'SelectCandidates', 'cfg': 'MC_SelectCandidates_prefix.cfg (inclusive ends, before the fix)', 'distinct_states': old['distinct'], 'violation': old['violation'], 'expected_violation': 'Disjoint'}]
+
+
+def generate_dates(work, V):
+    """GenerateDates.tla: the contract of OpenDate holds for midnight references (model-checked for every (month, day) x
+    every day of two years); the configurations with a time of day and with the year 2096 must fail (design-level
+    counterexamples: known finding F-C09-1, and 29 February next to a non-leap century year outside the property's range);
+    a stride of the model's inputs is replayed into the real DateUtils.generate_dates."""
+    ok = tlc.run(work, 'GenerateDates', cfg='MC_GenerateDates.cfg', timeout=1200)
+    tod = tlc.run(work, 'GenerateDates', cfg='MC_GenerateDates_timeofday.cfg', timeout=600)
+    y96 = tlc.run(work, 'GenerateDates', cfg='MC_GenerateDates_2096.cfg', timeout=600)
+    b = tlc.run(work, 'GenerateDates', cfg='MC_GenerateDates_bind.cfg', dump=True, timeout=900)
+    if not ok['ok']:
+        V.note('mechanism-drift: GenerateDates violates %s for midnight references' % ok['violation'])
+    cases, want = [], []
+    for st in tlc.read_dump(b['dump'], where='pc = "done"'):
+        cases.append({'api': 'generatedates', 'n': st['n'], 'tod': st['tod'], 'm': st['m'], 'd': st['d']})
+        want.append(list(st['res']))
+    obs = pool.run_cases(cases, init_name='datetime', batch=500, timeout=20.0)
+    drift = 0
+    for c, w, o in zip(cases, want, obs):
+        if o.get('res') != w:
+            drift += 1
+            if drift <= 2:
+                V.note('mechanism-drift: generate_dates(%s): model %s, code %s' % (c, w, o))
+    return [{'module': 'GenerateDates', 'cfg': 'MC_GenerateDates.cfg', 'distinct_states': ok['distinct'], 'violation': ok['violation']},
+            {'module': 'GenerateDates', 'cfg': 'MC_GenerateDates_timeofday.cfg', 'distinct_states': tod['distinct'], 'violation': tod['violation'], 'expected_violation': 'MeetsContract'},
+            {'module': 'GenerateDates', 'cfg': 'MC_GenerateDates_2096.cfg', 'distinct_states': y96['distinct'], 'violation': y96['violation'], 'expected_violation': 'MeetsContract'},
+            {'module': 'GenerateDates', 'cfg': 'MC_GenerateDates_bind.cfg', 'distinct_states': b['distinct'], 'inputs_replayed_into_code': len(cases), 'drift': drift}]
